@@ -23,14 +23,21 @@ var (
 	zzBudget    int
 	zzAutoPhase bool // reset the per-phase bookkeeping at the phase starts used by buildParticipantConfig
 	zzSentinel  bool
+	// phase exhaustion (ZZ_C40_BuildConfigExhausted): in selection phase zzExhaustPhase (0 proposers, 1 endorsers,
+	// 2 committers) every draw after zzExhaustAfter fresh participants repeats a known one until the seed bits run
+	// out; the stub jumps to the end of that run and answers the sentinel.
+	zzExhaustPhase = -1
+	zzExhaustAfter int
+	zzPhase        int
 )
 
 func zzResetDraws(budget int, auto bool) {
 	zzDraws = map[uint32]uint32{}
 	zzSeen, zzWasted, zzBudget, zzAutoPhase, zzSentinel = nil, 0, budget, auto, false
+	zzExhaustPhase, zzExhaustAfter, zzPhase = -1, 0, -1
 }
 
-func zzNewPhase() { zzSeen, zzWasted = nil, 0 }
+func zzNewPhase() { zzSeen, zzWasted = nil, 0; zzPhase++ }
 
 func zzCalc(vrf vconfig.VRFValue, dposTable []uint32, k uint32) uint32 {
 	if k >= 512 {
@@ -39,6 +46,10 @@ func zzCalc(vrf vconfig.VRFValue, dposTable []uint32, k uint32) uint32 {
 	}
 	if zzAutoPhase && (k == 0 || k == vconfig.MAX_PROPOSER_COUNT || k == vconfig.MAX_PROPOSER_COUNT+vconfig.MAX_ENDORSER_COUNT) {
 		zzNewPhase()
+	}
+	if zzAutoPhase && zzExhaustPhase >= 0 && zzPhase%3 == zzExhaustPhase && len(zzSeen) >= zzExhaustAfter {
+		zzSentinel = true
+		return math.MaxUint32
 	}
 	id, ok := zzDraws[k]
 	if !ok {
@@ -236,6 +247,32 @@ func ZZ_C40_BuildConfig() {
 		zzsym.Cover("bft-config")
 	}
 	zzsym.Cover("config-done")
+}
+
+// One selection phase runs out of seed bits (all its remaining draws repeat known or excluded participants):
+// buildParticipantConfig then either refuses (error, no configuration) or still returns a configuration that
+// meets every size and membership rule. With the 240-draw committer window this happens for real seeds once
+// N is large (27 of 400 seeds at N=40); here it is an explicit solver choice at small N.
+func ZZ_C40_BuildConfigExhausted() {
+	chain := zzChain()
+	copy(zzSeedVal[:], zzsym.Bytes("seed", vconfig.VRF_SIZE))
+	zzsym.Assume(!zzSeedVal.IsNil())
+	zzResetDraws(0, true)
+	zzExhaustPhase = zzsym.Choose("phase", 3)
+	zzExhaustAfter = zzsym.Choose("after", int(chain.N)+1)
+	cfg, err := zzServer(1).buildParticipantConfig(1, nil, chain)
+	if err != nil {
+		zzsym.Assert(cfg == nil, "a refused configuration is not returned")
+		zzsym.Assert(zzSentinel, "a configuration is refused only when the seed is exhausted")
+		zzsym.Cover("exhausted-refused")
+		return
+	}
+	zzsym.Assert(cfg != nil, "success comes with a configuration")
+	zzCheckConfig(chain, cfg)
+	if zzSentinel {
+		zzsym.Cover("exhausted-but-enough") // C = 0: an empty endorser/committer list meets 2C = 0
+	}
+	zzsym.Cover("exhausted-done")
 }
 
 func ZZ_C40_Peers_witness() {
